@@ -427,6 +427,39 @@ def direct(rng, tier, focus=()):
                 failures.append({'kind': 'get-context-wrong-group', 'ctx': ctx, 'tags': repr(flat)[:600],
                                  'got': repr(got)[:200], 'want': repr(want)[:200]})
         nontriv.add(('multi', repr(flat)))
+    # Any.decode takes exactly the built (balanced) items and stops in front of the first closing tag that is
+    # not theirs; the terminator's number is drawn from the numbers used inside so that an inner group can
+    # carry the same number as the enclosing element (items are built, not parsed)
+    from bacpypes.constructeddata import Any
+    for _ in range(4000 if tier == 'thorough' else 1200):
+        n += 1
+        items = [build_item(0) for _ in range(rng.randrange(0, 4))]
+        flat = [t for it in items for t in it]
+        k = rng.random()
+        if k < 0.2:
+            rest = []
+        else:
+            c = rng.randrange(4)
+            rest = [(3, c, 0, b'')] + ([(0, 2, 1, b'\x07')] if k < 0.6 else []) + ([(3, c, 0, b'')] if k > 0.8 else [])
+        try:
+            tl = TagList([mk(*t) for t in flat + rest])
+            a = Any(); a.decode(tl)
+            got = (canon_tags(a.tagList.tagList), canon_tags(tl.tagList))
+        except Exception as e:
+            got = ('exception', repr(e)[:100])
+        want = (canon_tags([mk(*t) for t in flat]), canon_tags([mk(*t) for t in rest]))
+        if got != want:
+            failures.append({'kind': 'any-decode-wrong-extent', 'tags': repr(flat + rest)[:600],
+                             'got': repr(got)[:300], 'want': repr(want)[:300]})
+        else:
+            # and the extracted value re-encodes to the same tags
+            try:
+                tl2 = TagList(); a.encode(tl2)
+                if canon_tags(tl2.tagList) != want[0]:
+                    failures.append({'kind': 'any-encode-differs', 'tags': repr(flat)[:600]})
+            except Exception as e:
+                failures.append({'kind': 'any-encode-exception', 'tags': repr(flat)[:600], 'exc': repr(e)[:100]})
+        nontriv.add(('any', repr(flat + rest)))
     return failures, {'evaluations': n, 'distinct_nontrivial': len(nontriv), 'exhaustive': True,
                       'exhaustive_domain': 'all octet strings of length 2 (decode totality, re-encode stability)',
                       'samples': samples}
